@@ -337,6 +337,22 @@ func (fr *Frame) staticCall(callee *ssa.Function, bindings []Val, c *ssa.CallCom
 		return res, npc
 	}
 	if fc := e.Contracts[key]; fc != nil && !fc.Has("inline") && (len(fc.Of("requires"))+len(fc.Of("ensures"))+len(fc.Of("modifies")) > 0 || fc.Has("pure") || fc.Has("opaque") || fc.Has("havoc")) {
+		if fc.Assumed && !fc.Has("pure") && !e.fnInModule(callee) {
+			// assumed contract of an external taking interface-boxed pointers (binary.Read(r, bo, &x)): the
+			// pointee is written by the callee although the parameter type (`any`) does not show it.
+			// Exactly that pointee is havocked (not its whole heap class).
+			for _, a := range c.Args {
+				if mi, ok := a.(*ssa.MakeInterface); ok {
+					if pt, ok := mi.X.Type().Underlying().(*types.Pointer); ok {
+						vc.storeAddr(st, vc.addrOfPointer(fr.get(mi.X), pt.Elem()), vc.freshVal("hv", pt.Elem()))
+					} else {
+						ms := map[string]bool{}
+						e.pointeeEffects(ms, mi.X.Type())
+						vc.havocClasses(st, ms)
+					}
+				}
+			}
+		}
 		return fr.applyContract(fc, callee, args, nil, st, pc, pos, rt, name)
 	}
 	if e.fnInModule(callee) && callee.Blocks != nil {
@@ -687,7 +703,11 @@ func (vc *VC) mapLen(st *State, mt types.Type, m T) T {
 	ks := vc.mapKeySort(mt.Underlying().(*types.Map))
 	dsort := SortArr(ks, SortBool)
 	fn := "gv_maplen_" + smtName(ks)
-	vc.declareFun(fn, []string{dsort}, SortBV(64))
+	if _, seen := vc.declSet[fn]; !seen {
+		vc.declareFun(fn, []string{dsort}, SortBV(64))
+		// len of the empty map is 0 (ground fact; growth facts are added per insertion in mapUpdate)
+		vc.facts = append(vc.facts, "(assert (= ("+fn+" ((as const "+dsort+") false)) (_ bv0 64)))")
+	}
 	dcl := vc.classMap(mt, "dom")
 	d := Sel(vc.heapGet(st, dcl, SortArr(SortRef, dsort)), m)
 	t := app(fn, d)
